@@ -175,6 +175,13 @@ using Fut = dispenso::Future<R>;
 using Impl = dispenso::detail::FutureImplBase<R>;
 
 // ------------------------------------------------------------------------------ model schedulable
+#ifndef VF_INLINE
+#define VF_INLINE 0
+#endif
+#ifndef VF_CHECK_CLOSURE
+#define VF_CHECK_CLOSURE 0
+#endif
+static void inline_run(dispenso::OnceFunction& f);
 struct ModelSched {
   dispenso::OnceFunction slot;
   bool full = false;
@@ -183,8 +190,12 @@ struct ModelSched {
   int32_t unforced = 0;
   void schedule(dispenso::OnceFunction f) {
     ++unforced;
-    if (inlineNow) {
-      f();
+    if (VF_INLINE && inlineNow) {
+#if VF_INLINE
+      // run the closure on the caller, as ThreadPool::schedule does under load and ImmediateInvoker always:
+      // same resolution of the type-erased closure as in worker() below
+      inline_run(f);
+#endif
     } else {
       slot = std::move(f);
       full = true;
@@ -296,6 +307,19 @@ static void getterB(void*) {
   g_slot[1].f.~Fut();
 }
 
+static void inline_run(dispenso::OnceFunction& f) {
+#if VF_VIA_ONCE
+  f();
+#else
+  // the shared state is the block the small-buffer pool handed out last (typed pointer from the ledger)
+  Impl* impl = static_cast<Impl*>(static_cast<dispenso::detail::FutureImplSmall<64, Fn, R>*>(g_blk[0].p));
+#if VF_CHECK_CLOSURE
+  vf_check(*reinterpret_cast<Impl**>(f.buf_) == impl, "harness: the closure captured the future's shared state");
+#endif
+  impl->run();
+#endif
+}
+
 static void worker(void*) {
   if (!g_sched.full) {
     return;
@@ -304,8 +328,10 @@ static void worker(void*) {
   g_sched.slot();
 #else
   // the slot holds the closure `[this]() { run(); }` of the real makeOnceFunction(): run it
+#if VF_CHECK_CLOSURE
   vf_check(g_sched.slot.invoke_ == g_ref_invoke, "harness: the scheduled function is the future's run closure");
   vf_check(*reinterpret_cast<Impl**>(g_sched.slot.buf_) == g_impl, "harness: the closure captured the future's shared state");
+#endif
   g_impl->run();
 #endif
 }
@@ -335,11 +361,13 @@ extern "C" void vf_main() {
   if (async) {
     vf_check(g_runs == 0, "std::launch::async: functor does not run inside the constructor");
   }
+#if VF_CHECK_CLOSURE
   {
     // reference closure (what makeOnceFunction() produces) -- only its invoke pointer is kept
     dispenso::OnceFunction ref = g_impl->makeOnceFunction();
     g_ref_invoke = ref.invoke_;
   }
+#endif
   new (&g_slot[0].f) Fut(*f0);
 #if VF_GETTERS >= 2
   new (&g_slot[1].f) Fut(*f0);
